@@ -4,7 +4,12 @@ Decided clauses: (R-SIB exact) for every reachable function the returned value a
 canonical terms with and without glam-assert (SSE2 and scalar-math), so enabling assertions can only add panics and their conditions are effect-free;
 (R-PRECOND) every function whose rustdoc promises a panic "when glam_assert is enabled" gains at least one panic site in the assert build whose
 condition depends on the function's own operands, and functions without such a promise gain none that is undocumented; (R-GUARD) is_normalized is
-|len^2 - 1| <= tau with one common tau per scalar width on every vector and quaternion type.
+|len^2 - 1| <= tau with one common tau per scalar width on every vector and quaternion type; (R-PRECOND-INT) every value glam computes itself and hands
+to a function with a normalisation precondition (axis of rotate_towards, rotation of to_scale_rotation_translation, ...) satisfies |len|^2 = 1 as a
+real identity (sqrt(p)^2 = p, sin^2 + cos^2 = 1, sign^2 = 1), branch by branch; (R-POST, rules/post.py) every rotation producer - quaternion
+constructors, unit-quaternion products, inverse, conjugate, lerp, from_rotation_arc*, and the matrix / affine from_axis_angle, from_rotation_*,
+from_quat, from_euler x 24, from_rotation_translation, look_to_*, look_at_* - returns a unit quaternion / unit rotation columns as a real identity for
+arguments meeting the documented preconditions, and every affine Mat4 constructor has bottom row exactly (0,0,0,1).
 Not decided: that values produced by glam numerically pass the tolerances along chains of operations (accumulated rounding)."""
 import os
 import re
@@ -19,11 +24,14 @@ from C07 import root_outputs
 LEVEL = 'other'
 TECHNIQUE = 'cross-configuration term comparison (with / without glam-assert) + panic-site differencing against rustdoc promises + guard normal forms, over rustc MIR'
 EXPLANATION = ('Decides for all inputs that enabling glam-assert never changes a returned or written value (identical canonical terms), that each documented precondition is '
-               'actually asserted over the function\'s operands, and that is_normalized uses one tolerance everywhere.  Whether glam\'s own outputs numerically satisfy the '
+               'actually asserted over the function\'s operands, that is_normalized uses one tolerance everywhere, and that rotation producers and internally computed axes meet the '
+               'normalisation preconditions of their consumers exactly in real arithmetic.  Whether glam\'s own outputs numerically satisfy the '
                '2e-4 tolerance along operation chains depends on accumulated rounding and is not decided.')
 LEVEL_NOTE = 'Decides "assertions never change results" and the presence/operands of documented assertions; not numeric satisfaction of tolerances. Trusted: rustc MIR, intrinsic table.'
 
 PAIRS_QUICK = [('sse2', 'assert')]
+POST_QUICK = ['sse2']
+POST_THOROUGH = ['sse2', 'scalar', 'coresimd', 'neon', 'wasm32']
 PAIRS_THOROUGH = [('sse2', 'assert'), ('scalar', 'scalar-assert')]
 
 
@@ -51,6 +59,89 @@ def doc_promises():
                     out.append((rel, m.group(4), i + 1))
                 promise = False
     return out
+
+
+def find_tolerance_guards(t, out, seen):
+    if t.id in seen:
+        return
+    seen.add(t.id)
+    if t.op == 'fle' and t.args[0].op == 'fabs' and tm.is_const(t.args[1]):
+        out.append(t)
+        return
+    for a in t.args:
+        if isinstance(a, tm.T):
+            find_tolerance_guards(a, out, seen)
+
+
+MAX_SPLIT = 8
+
+
+def collect_ite_conds(t, out, seen):
+    if t.id in seen:
+        return
+    seen.add(t.id)
+    if t.op == 'ite' and t.args[0] not in out:
+        out.append(t.args[0])
+    for a in t.args:
+        if isinstance(a, tm.T):
+            collect_ite_conds(a, out, seen)
+
+
+def check_internal(ctx, pair, name, it, r, gained):
+    """R-PRECOND-INT: a value that glam itself computes and hands to a function with a tolerance precondition (|len^2 - 1| <= tau)
+    satisfies it as a real-arithmetic identity (sqrt(p)^2 = p, sin^2 + cos^2 = 1, sign^2 = 1).  Arguments that are the caller's own
+    inputs passed through unchanged are the caller's responsibility and are skipped."""
+    for p in gained:
+        if p.fn == it['d']:
+            continue
+        guards = []
+        find_tolerance_guards(p.cond, guards, set())
+        for g in guards:
+            X = g.args[0].args[0]
+            conds = []
+            collect_ite_conds(X, conds, set())
+            # real-arithmetic reading: inputs are numbers, so NaN tests (x != x) are false
+            nan_tests = [c for c in conds if c.op == 'fne' and c.args[0] is c.args[1]]
+            for c in nan_tests:
+                X = tm.subst(X, {c: tm.FALSE})
+            conds = []
+            collect_ite_conds(X, conds, set())
+            if len(conds) > MAX_SPLIT:
+                ctx.undecided('R-PRECOND-INT', pair, name, '%d selections in the guarded quantity' % len(conds))
+                continue
+            num = None
+            try:
+                for case in range(1 << len(conds)):
+                    Xc = X
+                    # substitute one condition at a time: deciding one may remove others
+                    for j, c in enumerate(conds):
+                        Xc = tm.subst(Xc, {c: tm.TRUE if (case >> j) & 1 else tm.FALSE})
+                    alg = nf.Algebra()
+                    alg.nf(Xc)
+                    for v_, info in list(alg.var_info.items()):
+                        if info[0] == 'fn' and info[1] in ('copysign', 'signum'):
+                            alg.rel[v_] = nf.Poly.const(1)
+                    alg.memo.clear()
+                    x = alg.nf(Xc)
+                    num = alg.reduce(x[0])
+                    if not num.is_zero():
+                        break
+            except Exception as e:
+                ctx.undecided('R-PRECOND-INT', pair, name, 'not analysable: %r' % (e,))
+                continue
+            inst = '%s -> %s' % (name, p.fn.rsplit('::', 2)[-2] + '::' + p.fn.rsplit('::', 1)[-1])
+            if num.is_zero():
+                ctx.holds('R-PRECOND-INT', pair, inst)
+                continue
+            # user value passed through unchanged?  every variable of the guarded quantity is an input atom of degree <= 2 with unit coefficients
+            vars_ = num.variables()
+            passthrough = all(alg.var_info.get(v_, ('?',))[0] == 'atom' for v_ in vars_)
+            if passthrough and num.degree() <= 2:
+                ctx.count('internal_assertions_on_caller_inputs:' + pair)
+                continue
+            ctx.violation('R-PRECOND-INT', pair, inst, {'file': it['file'], 'line': it['line'],
+                          'problem': 'glam passes a value it computed itself to %s whose precondition |len^2 - 1| <= %g is not an identity for that value (it can panic with glam-assert on valid inputs)' % (p.fn, tm.f_of(g.args[1])),
+                          'residual': num.show(alg.name, 6)})
 
 
 def run(ctx):
@@ -99,6 +190,8 @@ def run(ctx):
             documented = any(0 <= it['line'] - l <= 6 or 0 <= l - it['line'] <= 6 for l in lines_)
             if gained:
                 n_gain += 1
+            if gained and not documented:
+                check_internal(ctx, pair, name, it, rb, gained)
             if documented:
                 own_atoms = set(ra.atoms) | set(rb.atoms)
                 good = [p for p in gained if (p.cond.deps & set(rb.atoms))]
@@ -110,6 +203,8 @@ def run(ctx):
         ctx.floor('functions compared with/without glam-assert (%s)' % pair, n, 13000)
         ctx.floor('documented preconditions found asserted (%s)' % pair, n_doc_ok, 200)
         ctx.count('functions_gaining_panic_sites:' + pair, n_gain)
+        ctx.floor('internally established normalisation preconditions (%s)' % pair,
+                  sum(1 for o in ctx.obligations if o[0] == 'R-PRECOND-INT' and o[1] == pair), 16)
     # is_normalized: |len^2 - 1| <= tau, one tau per scalar width
     for cfg in [p[0] for p in pairs if p[0] in cfgs]:
         F = ctx.facts(cfg)
@@ -143,4 +238,8 @@ def run(ctx):
             else:
                 ctx.holds('R-GUARD', cfg, 'is_normalized tolerance (f%d)' % (8 * w), {'tau': sorted(ts)[0]})
         ctx.floor('is_normalized implementations (%s)' % cfg, sum(1 for o in ctx.obligations if o[0] == 'R-GUARD' and o[1] == cfg), 9)
+    # rotation producers establish the consumers' preconditions (real identities)
+    import post
+    for cfg in ctx.need(POST_QUICK if ctx.tier == 'quick' else POST_THOROUGH):
+        post.run_producers(ctx, cfg, ctx.facts(cfg), ctx.harness(cfg), 270)
     ctx.extra['exhaustive'] = True
